@@ -1,5 +1,6 @@
 pub mod c01;
 pub mod c01_carriers;
+pub mod c02;
 pub mod c03;
 pub mod c11;
 pub mod c13;
@@ -22,6 +23,7 @@ pub type CheckFn = fn(&Ctx, &mut Report);
 pub fn registry() -> Vec<(&'static str, CheckFn)> {
     vec![
         ("C01", c01::run as CheckFn),
+        ("C02", c02::run as CheckFn),
         ("C03", c03::run as CheckFn),
         ("C11", c11::run as CheckFn),
         ("C13", c13::run as CheckFn),
